@@ -466,6 +466,13 @@ func runC03(r *Report, rng *rand.Rand, thorough bool) {
 			if res != nil {
 				e = res.Err
 			}
+			if m.fw == "stdhttp" && strings.Contains(e, `PANIC: pattern "HEAD `) && strings.Contains(e, `conflicts with pattern "GET `) ||
+				m.fw == "stdhttp" && strings.Contains(e, `PANIC: pattern "GET `) && strings.Contains(e, `conflicts with pattern "HEAD `) {
+				// net/http: a GET pattern also matches HEAD, so "HEAD /a/{id}" and "GET /a/items" overlap without one being
+				// more specific: registration panics, the generated server cannot be mounted for this (valid) document
+				r.Violate("stdhttp_head_and_get_patterns_conflict", "std-http: "+trunc(e, 200), replay)
+				continue
+			}
 			r.Violate("scenario_error", id+": "+e, replay)
 			continue
 		}
@@ -519,7 +526,7 @@ func runC03(r *Report, rng *rand.Rand, thorough bool) {
 		// iris's trie does not go back from a static child to a variable sibling: when the request path is a
 		// proper prefix of a longer route of the same method whose segment at that place is a literal, the
 		// shorter templated route is not found (third-party behaviour, recorded, kept out of the correspondence)
-		if m.fw == "iris" && want != nil && len(handlers) == 0 && res.Status == 404 {
+		if (m.fw == "iris" || m.fw == "gin") && want != nil && len(handlers) == 0 && res.Status == 404 {
 			quirk := false
 			segs := m.segs[len(m.base):]
 			for _, rt := range set.rs {
@@ -539,7 +546,16 @@ func runC03(r *Report, rng *rand.Rand, thorough bool) {
 				}
 			}
 			if quirk {
-				r.Violate("iris_no_backtracking_from_static_prefix_to_variable", fmt.Sprintf("iris %s /%s matches %s but a route with a literal where that one has a variable hides it (status 404)", m.method, strings.Join(m.segs, "/"), opName(want.op)), replay)
+				r.Violate(m.fw+"_no_backtracking_from_static_prefix_to_variable", fmt.Sprintf("%s %s /%s matches %s but a route with a literal where that one has a variable hides it (status 404)", m.fw, m.method, strings.Join(m.segs, "/"), opName(want.op)), replay)
+				continue
+			}
+		}
+		// net/http's ServeMux ("GET" patterns also match HEAD) and fiber (App.Get = Head + Get, and GET is registered
+		// before HEAD) serve HEAD requests with the handler of the GET operation of the same path: a HEAD request that
+		// matches no HEAD operation reaches a user handler, and under fiber a declared HEAD operation is shadowed
+		if m.method == "head" && len(handlers) == 1 && (want == nil || handlers[0].Name != opName(want.op)) {
+			if g, _ := expectDispatch(set.rs, m.base, "get", m.segs); g != nil && opName(g.op) == handlers[0].Name {
+				r.Violate("head_request_served_by_get_route/"+m.fw, fmt.Sprintf("%s HEAD /%s runs the handler of the GET operation %s", m.fw, strings.Join(m.segs, "/"), handlers[0].Name), replay)
 				continue
 			}
 		}
